@@ -18,7 +18,7 @@ func c01Files() []*sFile {
 	return []*sFile{
 		{Key: "a1", Name: "a", Renamed: "x/a", Data: "AAAABBBB", Cuts: []int64{0, 4, 8}},
 		{Key: "a2", Name: "a", Renamed: "x/a", Data: "aaaabbbb", Cuts: []int64{0, 4, 8}}, // later version, same size
-		{Key: "b1", Name: "s/a", Data: "CCCC", Cuts: []int64{0, 4}},                       // same leaf name in a sub-directory
+		{Key: "b1", Name: "s/a", Data: "CCCC", Cuts: []int64{0, 4}},                      // same leaf name in a sub-directory
 	}
 }
 
